@@ -92,7 +92,7 @@ class C19(Prop):
         "keyhash_embedded_nul_counterexample", "spec_store", "spec_lookup", "spec_get",
         "heap_history", "heap_insert", "heap_extract", "heap_extract_null", "heap_extract_null_unguarded_faults", "heap_sorts", "heap_drain", "heap_validate", "heap_nalloc_in_range", "heap_grow",
         "rb_insert", "rb_history", "rb_wf_iff", "rb_height", "rb_lookup", "rb_sorted_linked", "rb_linked_is_reverse_inorder", "rb_lookup_history", "rb_pool_never_twice", "rb_ptr_lookup", "rb_convert_doubly_linked", "rb_convert_null", "rb_convert_passes_list_test", "rb_ops_history",
-        "stack_history", "stack_history_shuffles", "stack_no_fault", "stack_threads_atomic", "stack_push_pop", "stack_pop_empty", "stack_lifo", "stack_popAll_unfold", "stack_discardTopN", "stack_discardSelected",
+        "stack_history", "stack_history_shuffles", "stack_no_fault", "stack_threads_atomic", "stack_threads_conservation", "stack_threads_eod_only_after_release", "stack_threads_mutex_progress", "stack_push_pop", "stack_pop_empty", "stack_lifo", "stack_popAll_unfold", "stack_discardTopN", "stack_discardSelected",
         "stack_shuffle", "stack_convert2String", "stack_nalloc_in_range",
         "quicksort_sorts", "quicksort_unguarded_n0_faults")]
     claimed = True
@@ -148,6 +148,9 @@ class C19(Prop):
             {"name": "stack-cond", "sticky": 1,
              "ops": ["st_new t=i mutex=1 cond=1", "push v=1,2,3", "pop", "discardtop n=1", "discardsel mode=even", "shuffle seed=3", "st_dump",
                      "st_reuse", "count", "st_release", "pop", "push v=9", "popall", "pop"]},
+            {"name": "stack-threads", "sticky": 0,
+             "ops": ["st_threads t=i pushers=1 poppers=1 popfirst=1 v=1,2,3", "st_threads t=c pushers=2 poppers=3 popfirst=0 v=5,5,7,0,255",
+                     "st_threads t=p pushers=3 poppers=1 popfirst=1 v=-", "st_threads t=i pushers=16 poppers=16 popfirst=1 v=%s" % fmt_ints(list(range(-150, 150)))]},
             {"name": "rb-pool", "sticky": 1,
              "ops": ["rb_new exp=0 pool=2", "rb_ins k=5,3,8,3,1,4", "rb_dump", "rb_lookup k=3,7", "rb_list", "rb_ins k=2,1", "rb_dump",
                      "rb_new exp=-3 pool=1", "rb_ins k=1,1,2", "rb_dump"]},
@@ -471,6 +474,22 @@ class C19(Prop):
             ops.append("pop")
         return ops
 
+    def gen_threads(self, rng, nops, big):
+        """real concurrency: P pusher and Q popper threads on one stack in mutex + condition-variable mode; poppers started
+        before the pushers sleep in pthread_cond_wait; sizes around the reallocation boundaries (growth under the mutex)"""
+        ops = []
+        for _ in range(nops):
+            t = rng.choice("icp")
+            n = rng.choice([0, 1, 2, 3, 127, 128, 129, 257, rng.randrange(0, 40), rng.randrange(0, big)])
+            if t == "c":
+                v = [rng.randrange(0, 256) for _ in range(n)]
+            elif t == "i":
+                v = self.int_data(rng, n)
+            else:
+                v = [rng.randrange(0, 2**47) if rng.random() < 0.7 else rng.randrange(0, 6) for _ in range(n)]
+            ops.append("st_threads t=%s pushers=%d poppers=%d popfirst=%d v=%s" % (t, rng.choice([1, 1, 2, 3, 4, 8]), rng.choice([1, 1, 2, 3, 4, 8]), rng.randrange(2), fmt_ints(v)))
+        return ops
+
     def gen_qsort(self, rng, nops, big):
         ops = []
         for _ in range(nops):
@@ -574,6 +593,8 @@ class C19(Prop):
             add("stack%d" % c, self.gen_stack(rng, rng.choice([5, 15, 40]), big))
         for c in range(n // 2):
             add("qsort%d" % c, self.gen_qsort(rng, rng.choice([3, 10, 30]), big), sticky=0)
+        for c in range(n // 8):
+            add("threads%d" % c, self.gen_threads(rng, rng.choice([1, 3, 6]), big), sticky=0)
         if not quick:
             add("heap-long", ["heap_new max=0", "hins v=%s" % fmt_ints(self.int_data(rng, 100000)), "hvalidate", "hdrain"])
             add("rp-long", ["rp_new pool=64", "rp_ins k=%s" % fmt_ints([rng.randrange(-10**6, 10**6) for _ in range(100000)]), "rp_hash", "rp_convert", "rp_ltest", "rp_hash"])
@@ -916,6 +937,12 @@ class C19(Prop):
                 b = bytes(st).split(b"\0")[0] if st_ordered else None
                 if b is not None and l != "ok " + hx(b): return fail(i, "string is not the pushed characters in order")
                 st, st_ordered, stype = [], True, "i"
+            elif name == "st_threads":
+                if l == "bad-op": continue
+                v = ints(kv["v"]); t = kv.get("t", "i")
+                v = sorted((x % 256) if t == "c" else x for x in v)
+                exp = "ok popped=%s left=0 eods=%s" % (fmt_ints(v), kv.get("poppers", "1"))
+                if l != exp: return fail(i, "threads lost / duplicated / invented an item, left one behind, or a popper did not end with exactly one eslEOD; expected %s" % exp[:100])
             # ---------------- quicksort
             elif name == "qsort":
                 data = ints(kv["data"]); mode = kv.get("mode", "asc")
